@@ -201,11 +201,9 @@ def run_history(case):
             api.register_table(d, name, overwrite=True)
         if seq["cleanup"]:
             api.delete_tables_created_by_splink_from_db()
-            parts = all_parts
-        else:
-            # without a cleanup the cumulative function and n_largest_blocks answer from the SQL-keyed table cache
-            # (known finding, dedicated witness); count_comparisons drops its result tables and must be fresh
-            parts = ("count",)
+        # with or without a cleanup call, all three functions must answer for the CURRENT contents
+        # (fixed in /repo 16fdbf82: FX-C14-stale-after-table-replaced; witness replayed in c14.py)
+        parts = all_parts
         out.append((case2, analysis_calls(api, case2, parts), parts))
     return out
 
